@@ -164,6 +164,21 @@ pub const VALUE_EDGES: &[&str] = &[
     "179769313486231570000000000000000000000000000000000000000000000000000000000000000000000000000000000000000000000000000000000000000000000000000000000000000000000000000000000000000000000000000000000000000000000000000000000000000000000000000000000000000000000000000000000000000000000000000000000000000000000000000",
 ];
 
+/// Long values made of multi-byte characters, offset so that the usual cut-off lengths (32, 48, 64, 128, 255, 256, 512,
+/// 1024 bytes) fall INSIDE a character: whatever a converter does with a value it rejects (an error that quotes it, a
+/// log line, a size-limited copy) must not slice it there.
+pub fn long_edges() -> Vec<String> {
+    let mut v = Vec::new();
+    for (lead, ch, n) in [("", "\u{e9}", 700usize), ("a", "\u{e9}", 700), ("", "\u{65e5}", 500), ("a", "\u{65e5}", 500), ("ab", "\u{65e5}", 500), ("a", "\u{1f600}", 300), ("ab", "\u{1f600}", 300), ("abc", "\u{1f600}", 300)] {
+        v.push(format!("{}{}", lead, ch.repeat(n)));
+    }
+    v.push(format!("12{}", "\u{e9}".repeat(100)));
+    v.push(format!("1.5{}", "\u{20ac}".repeat(100)));
+    v.push(format!("2020-06-12T17:53:00{}", "\u{e9}".repeat(90)));
+    v.push("x".repeat(5000));
+    v
+}
+
 /// After the default-build cases have run, run the same cases in children of the chrono build.
 pub fn chrono_stage(cfg: &Cfg, acc: &mut Acc, limit: Duration) {
     if cfg!(feature = "chrono") {
